@@ -55,13 +55,13 @@ class Lists(BCheck):
                                                                                      kinds=("snv", "snv", "ins", "del"),
                                                                                      gt_kinds=("het", "het", "het", "het_rev", "homref", "homalt")))
                 yield dict(main_vcf=g["main_vcf"], phase_vcfs=g["phase_vcfs"], ped=None, lists=[l for l in lists if l != "recomb_list"] or ["read_list"],
-                           distrust=distrust, recombrate=1.26, trios=[], tag="HP" if i % 2 else "PS", genetic=True)
+                           distrust=distrust, recombrate=1.26, trios=[], tag="HP" if i % 2 else "PS", genetic=True, stale=(i % 4 == 0))
             else:
                 fams = r.choice([("trio",), ("quartet",), ("trio", "trio"), ("trio", "quartet")])
                 g = PED.generate(r, families=fams, unrelated=r.choice([0, 1]), n_contigs=(2, 3), k_files=(1, 3), crossover=0.3, error_rate=0.1,
                                  n_variants=(5, 10), reads_per_file=(1, 3), cover=0.7)
                 yield dict(main_vcf=g["main_vcf"], phase_vcfs=g["phase_vcfs"], ped=g["ped"], lists=lists, distrust=distrust,
-                           recombrate=r.choice([1.26, 1e5, 1e6]), trios=g["trios"], tag="HP" if i % 4 == 1 else "PS", genetic=(i % 5 != 2))
+                           recombrate=r.choice([1.26, 1e5, 1e6]), trios=g["trios"], tag="HP" if i % 4 == 1 else "PS", genetic=(i % 5 != 2), stale=(i % 4 == 1))
 
     def nontrivial(self, inp):
         return inp["main_vcf"].count("##contig") >= 2
@@ -69,9 +69,14 @@ class Lists(BCheck):
     def check(self, inp):
         from runtime.phase_driver import run_phase
         res = run_phase(inp["main_vcf"], inp["phase_vcfs"], ped=inp["ped"], lists=inp["lists"], distrust_genotypes=inp["distrust"], recombrate=inp["recombrate"],
-                        tag=inp.get("tag", "PS"), genetic_haplotyping=inp.get("genetic", True), include_homozygous=bool(inp["distrust"]))
+                        tag=inp.get("tag", "PS"), genetic_haplotyping=inp.get("genetic", True), include_homozygous=bool(inp["distrust"]),
+                        stale_lists=bool(inp.get("stale")))
         if res["error"]:
             return dict(expected="run succeeds", observed=res["error"], traceback=res.get("traceback"))
+        for key in ("read_list", "gtchange_list", "recomb_list"):
+            if key in inp["lists"] and res.get(key) and "STALE" in res[key]:
+                return dict(expected="the %s of this run only (the path held an earlier run's list)" % key, observed=[l for l in res[key].split("\n") if "STALE" in l][:2],
+                            clause="stale-entries")
         samples, recs_out, phase = PH.decode_phasing(res["out"])
         _, _, recs_in = V.parse(inp["main_vcf"])
         calls = res["solver_calls"]
